@@ -13,7 +13,7 @@ from tqdm import tqdm
 
 import neuroglancer_scripts.accessor
 import neuroglancer_scripts.chunk_encoding
-from neuroglancer_scripts import data_types, precomputed_io
+from neuroglancer_scripts import data_types, precomputed_io, sharded_base
 
 logger = logging.getLogger(__name__)
 
@@ -65,6 +65,11 @@ def convert_chunks(source_url, dest_url, copy_info=False,
     )
     chunk_reader = precomputed_io.get_IO_for_existing_dataset(source_accessor)
     source_info = chunk_reader.info
+    if copy_info and sharded_base.ShardedAccessorBase.info_is_sharded(
+            source_info):
+        # The copied info will declare sharding, so the destination must be
+        # written with a sharded accessor
+        options = dict(options, sharding=True)
     dest_accessor = neuroglancer_scripts.accessor.get_accessor_for_url(
         dest_url, options
     )
